@@ -666,6 +666,43 @@ def _r17_6(prog: Program, res: Result) -> None:
             res.undecided("R17.6", fn.loc(host), fn.fq, text, f"branch uses a statement outside the interpreted subset: {why}")
         else:
             res.decide(bad is None, "R17.6", fn.loc(host), fn.fq, text, bad or "new bounds select exactly the same integers (all order types of start, stop, c)")
+    # unknown bounds: a start/stop that is not a known constant (None) must never be folded
+    none_guard = False
+    for n in walk_own(fn.node):
+        if isinstance(n, ast.If) and n.lineno < loop.lineno and any(isinstance(b, ast.Continue) for b in n.body):
+            try:
+                hits = []
+                for st0 in ({"start": None, "stop": 3, "step": 1}, {"start": 0, "stop": None, "step": 1}, {"start": 0, "stop": 3, "step": 1}):
+                    st = dict(st0)
+                    _run_branch([ast.If(test=n.test, body=[ast.Assign(targets=[ast.Name(id="hit", ctx=ast.Store())], value=ast.Constant(value=True))], orelse=[])], st, 0, cvar)
+                    hits.append(bool(st.get("hit")))
+                if hits == [True, True, False]:
+                    none_guard = True
+            except (_Unsupported, TypeError):
+                continue
+    if none_guard:
+        res.ok("R17.6", fn.loc(loop), fn.fq, "unknown bounds", "ranges whose start or stop is not a known constant are skipped before any bound is folded")
+    else:
+        bad = None
+        for tv, body, host in branches:
+            op = tmpl_op.get(tv)
+            if op is None:
+                continue
+            for start, stop in ((None, 3), (1, None), (None, None)):
+                for c in (0, 2, 5):
+                    state = {"start": start, "stop": stop, "redundant": False}
+                    try:
+                        _run_branch(body, state, c, cvar)
+                    except _Unsupported:
+                        continue
+                    except TypeError:
+                        bad = bad or f"x {PYSYM[op]} {c} with start={start}, stop={stop}: comparison with an unknown bound raises TypeError"
+                        continue
+                    if state["redundant"] or state["start"] != start or state["stop"] != stop:
+                        bad = bad or (f"x {PYSYM[op]} {c} is folded into range(start={start}, stop={stop}) -> (start={state['start']}, stop={state['stop']}) although "
+                                      "None stands for a bound that is not a known constant (it may be smaller or larger than the compared value)")
+        res.decide(bad is None, "R17.6", fn.loc(loop), fn.fq, "unknown bounds", bad or "no branch folds a condition into an unknown bound")
+
     # step phase: raising `start` is only sound when step is 1: a guard before the update loop must skip every other step
     step_guard = None
     for n in walk_own(fn.node):
@@ -795,6 +832,7 @@ VARIANTS = [
             "                if start is None or comparator.value > start:\n                    start = comparator.value", "R17.6"),
     Variant("range-step-guard-removed", "FIRE", "symbolic_math",
             "        if step != 1:\n", "        if step == 0:\n", "R17.6"),
+    Variant("range-unknown-bounds-folded", "FIRE", "symbolic_math", "        if start is None or stop is None:\n", "        if False:\n", "R17.6"),
     Variant("range-lt-equivalent-guard", "SILENT", "symbolic_math",
             "                if stop is None or comparator.value <= stop:\n                    stop = comparator.value\n",
             "                if stop is None or not comparator.value > stop:\n                    stop = comparator.value\n"),
